@@ -65,18 +65,40 @@ fn main() {
             for (i, l) in lines.iter().enumerate() {
                 chunks[i % threads].push(l.clone());
             }
+            // watchdog: a case that does not finish within the deadline is reported and the run ends (a check never hangs)
+            let deadline: u64 = std::env::var("VH_CASE_DEADLINE").ok().and_then(|s| s.parse().ok()).unwrap_or(120);
+            let current: std::sync::Arc<std::sync::Mutex<Vec<Option<(String, std::time::Instant)>>>> =
+                std::sync::Arc::new(std::sync::Mutex::new(vec![None; threads]));
+            {
+                let current = current.clone();
+                let report_path = report_path.clone();
+                std::thread::spawn(move || loop {
+                    std::thread::sleep(std::time::Duration::from_millis(500));
+                    let hung: Option<String> = current.lock().unwrap().iter().flatten()
+                        .find(|(_, t)| t.elapsed().as_secs() >= deadline).map(|(l, _)| l.clone());
+                    if let Some(l) = hung {
+                        let mut rf = std::fs::File::create(&report_path).unwrap();
+                        writeln!(rf, "HANG {}", l).unwrap();
+                        writeln!(rf, "FINDING * | {} | the case did not finish within {} s (every other case takes milliseconds): scoring or placing this state does not return", l, deadline).unwrap();
+                        std::process::exit(0);
+                    }
+                });
+            }
             let handles: Vec<_> = chunks
                 .into_iter()
                 .enumerate()
                 .map(|(ti, chunk)| {
                     let cp = format!("{}.{}", cases_path, ti);
+                    let current = current.clone();
                     std::thread::spawn(move || {
                         let mut cf = std::io::BufWriter::new(std::fs::File::create(&cp).unwrap());
                         let mut rep = vec![];
                         for l in chunk {
                             let spec = Spec::parse(&l);
                             let mut buf: Vec<u8> = vec![];
+                            current.lock().unwrap()[ti] = Some((l.clone(), std::time::Instant::now()));
                             let r = std::panic::catch_unwind(std::panic::AssertUnwindSafe(|| geom::run_case(&spec, &mut buf)));
+                            current.lock().unwrap()[ti] = None;
                             match r {
                                 Ok(o) => {
                                     cf.write_all(&buf).unwrap();
